@@ -25,6 +25,11 @@ PROP = {
         "GunYu.Props.C18.client_revalidation_agrees",
         "GunYu.Props.C18.committed_txn_accepted",
         "GunYu.Props.C18.client_refusal_sends_nothing",
+        "GunYu.Props.C18.committed_txn_node",
+        "GunYu.Props.C18.same_slot_replayed",
+        "GunYu.Props.C18.client_revalidation_agrees'",
+        "GunYu.Props.C18.rdb_unit_single_slot",
+        "GunYu.Props.C18.refused_txn_emits_nothing",
     ],
     "gens": ["c18", "c10"],
     "expected_facts": {
@@ -45,6 +50,19 @@ PROP = {
             "TCP into node doubles that record every MULTI block. Monitors (independent bitwise CRC16 HASH_SLOT on generator-known key "
             "positions): accepted <=> determined & single-slot; unit slot = HASH_SLOT; exactly one MULTI block at the slot owner, marker "
             "first, every business/control key on the unit's slot; nothing sent after a refusal; builder and client agree. "
+            "Second part (vf_c18_loop_test.go): streams of 2-6 judgeable transactions through the REAL parseAofReplayUnits + sendBisyncSync/Pipeline/Parallel "
+            "(cluster config, real newBisyncCommandKeyResolver with its own COMMAND GETKEYS double, independent of the client's; also a directed case where the "
+            "builder accepts and the client answers ErrCrossSlots) into node doubles that, like a cluster node, refuse at queue time what is not on their slots or "
+            "spans slots (-MOVED/-CROSSSLOT, then -EXECABORT) — monitors: every block is exactly one source transaction of the accepted prefix, marker first, "
+            "never split/merged, nothing sent at or after a refused transaction (other lanes excepted in parallel mode), the loop returns an error iff something "
+            "must be refused, all accepted transactions arrive once; injected faults at the node (CROSSSLOT at queue time, error entry inside the EXEC array: replay "
+            "must stop, nothing later sent; MOVED / ASK once: whole block re-sent to the named node, replay goes on); snapshot phase: buildBisyncRdbReplayUnit in "
+            "cluster mode on string/hash/list/zset entries (split bins, keyExists replace/ignore, RESTORE or expanded, replace-hashtag on/off, 16 brace arrangements) "
+            "-> execBisyncRdbUnit -> nodes (unit slot = HASH_SLOT(target key), every command on the target key, one block at the owner); cluster-global lane "
+            "(bisyncRdbGlobalTargets with shuffled ranges, execBisyncRdbGlobalUnit over direct connections: one block per primary, marker on a slot that primary serves). "
+            "Oracle shapes: 31 + 46 more written from the command reference (SINTERSTORE/SDIFFSTORE, RENAMENX, GEOSEARCHSTORE, ZINTERSTORE/ZDIFFSTORE, "
+            "GEORADIUSBYMEMBER..STOREDIST, LMPOP/ZMPOP/BLMPOP/BZMPOP, EVALSHA, FCALL, JSON.MSET, XREADGROUP, BRPOPLPUSH, BLMOVE, BRPOP, BZPOPMIN, 25 single-key commands), "
+            "lower/upper/mixed-case names; corpus/C18 pins the D1 key and the two seeded-mutation inputs with their key positions. "
             "distinct_nontrivial = distinct accepted single-slot transactions",
     "trusted": ["Redis Cluster HASH_SLOT as transcribed in Model/Slot.lean (C11)",
                 "key positions of the 31 generator command shapes, written from the Redis command reference (harness oracle only)",
@@ -53,7 +71,18 @@ PROP = {
                     "builder, commit order and txnBatcher models tied by correspondence; control-key constructors, marker TTL and the slot-tag table regenerated from source",
                     "client_revalidation_agrees is stated for commands chooseNodeWithCmdAndKeys routes by key spec (not PING/CLUSTER/INFO/SELECT/MGET/MSET/MSETNX/MULTI/EXEC; "
                     "MSET/MSETNX are covered by the correspondence ops) and a slot map covering all slots",
-                    "cluster.transactionEnable (set only by putting a literal MULTI) is outside the model; the bisync path never puts MULTI/EXEC"],
+                    "cluster.transactionEnable (set only by putting a literal MULTI) is outside the model; the bisync path never puts MULTI/EXEC",
+                    "the builder's COMMAND GETKEYS (every node asked, first answer wins) and the cluster client's (one node) are separate calls: the agreement theorems "
+                    "(client_revalidation_agrees', committed_txn_accepted) assume they answer alike on the commands the static tables do not resolve; where they differ the "
+                    "client can refuse a unit the builder accepted (Lean example; harness: replay stops, nothing of the unit sent)",
+                    "unit_single_slot is relative to the key positions the resolver names (regenerated keyspec tables / COMMAND GETKEYS); that those are Redis's positions is "
+                    "tied by the 77 independently written shapes of the harness oracle and by C10, not proved",
+                    "`replayUnit … = none` / `wire … = error` (unroutable_refused_before_send 2nd conjunct, client_refusal_sends_nothing) restate how the model composes builder "
+                    "and client; that the CODE sends nothing is what refused_txn_emits_nothing (parser model, tied by C13's parse ops) and the loop monitors establish",
+                    "a checkpoint name read back from the target's checkpoint hash is assumed to be one the tool generated (brace-free); only generated names are checked",
+                    "slot-map holes (a slot without a known owner) refuse a single-slot unit at the client: outside the statements (Covered), exercised only by the txn ops",
+                    "in parallel mode a unit the CLIENT refuses fails on its lane while later units of other slots may already have been dispatched on theirs (observed, counted "
+                    "as loop_parallel_lane_overtake): the property speaks of the refused transaction itself, of which nothing is sent"],
     "partial": [],
 }
 
